@@ -12,72 +12,9 @@ F = "found with input"
 M = "missed"
 O = "fact only"
 
-ANNOT = {
-    # round 2
-    "C01-m3": (M, "shared C01/C08 pipeline stream: split declarations that spell only part of the word (last unit takes the rest), on-demand split_into of every mode-C morpheme"),
-    "C01-m4": (M, "inputs around the 49149 / 65535 byte limits, alone and inside reuse sessions (must be rejected, or accepted and partitioned)"),
-    "C02-m3": (F, ""),
-    "C02-m4": (M, "C02 pipeline oracle enumerates the dictionary candidates itself (trie lookup per offset) instead of trusting the nodes found in the lattice"),
-    "C03-m3": (M, "generated n x m (non-square) configurations with OOV / plugin ids around both dimensions"),
-    "C03-m4": (M, "tokenizers with debug dump enabled, run in a child process over input sequences of decreasing length"),
-    "C04-m3": (F, ""), "C04-m4": (F, ""),
-    "C05-m3": (F, ""), "C05-m4": (F, ""),
-    "C06-m3": (F, ""),
-    "C06-m4": (M, "every case compiles twice on one builder, retry on the same builder after each injected sink failure; session model + C06_compile_idempotent / C06_retry_is_fresh_build; facts on write_to / compile state mutation"),
-    "C07-m3": (M, "sessions on reused objects (one InputBuffer; one StatefulTokenizer + one MorphemeList) over 3..8 inputs, each step vs specification, model and a fresh buffer"),
-    "C07-m4": (F, ""),
-    "C08-m3": (M, "C08 now checks begin_c/end_c and slice equality for every morpheme the real tokenizer reports (stream shared with C01: display form != key, split declarations of other lengths)"),
-    "C08-m4": (O, "same: code-point offsets of every reported morpheme against the count of code points of the original"),
-    "C09-m3": (F, ""),
-    "C09-m4": (M, "C/A/B analyses come from tokenizers with set_mode histories (fresh or switched, with analyses in between)"),
-    "C10-m3": (O, "sudachipy history sessions (per-call mode override, out= reuse, rejected texts) against a fresh Tokenizer"),
-    "C10-m4": (F, ""),
-    "C11-m3": (M, "operation sequences on long-lived tokenizers sharing result lists (swap_result / collect_results), incl. split_into of collected morphemes; shape fact on swap_result"),
-    "C11-m4": (O, "stacks with two user dictionaries and user->user references at word and tokenizer level; theorem C11_lexset_accessor_preserved (each reference field re-stamped under its own flag)"),
-    "C12-m3": (F, ""),
-    "C12-m4": (M, "MeCab / Simple / Regex providers x userPOS allow / forbid / absent x POS present / absent, load-outcome oracle and exact OOV-POS probe"),
-    "C13-m3": (M, "segment stream: long class runs x Regex providers over contiguous ranges sharing ends; independent lattice oracle for Regex matches"),
-    "C13-m4": (F, ""),
-    "C14-m3": (F, ""), "C14-m4": (F, ""),
-    "C15-m3": (F, ""),
-    "C15-m4": (M, "pipeline stream repeated under 14 field subsets x modes; joined numerals must not depend on unrequested fields when NORMALIZED_FORM is requested (boundary equality only inside C11's carve-out)"),
-    "C16-m3": (F, ""),
-    "C16-m4": (O, "checker dictionaries with a system lexicon + 0..3 user lexicons, terminator words and same-start words in different lexicons"),
-    "C17-m3": (F, ""),
-    "C17-m4": (M, "classes read through one reused InputBuffer over changing grammars (glue above the table), compared with the union of the definition lines"),
-    "C18-m3": (O, "fresh-dictionary first-call rounds (all threads start on a dictionary nobody has used), unoptimised profile"),
-    "C18-m4": (O, "contention rounds on yomigana-dense texts; the harness itself survives poisoned locks (its crash had masked the finding)"),
-    "C19-m3": (F, ""),
-    "C19-m4": (O, "CLI files with CR inside the text and at line ends, compared byte for byte; strip_eol model case terms"),
-    "C20-m3": (F, ""), "C20-m4": (F, ""),
-    # round 3
-    "C01-m5": (F, ""),
-    "C01-m6": (M, "C01 now also runs sessions through the sudachipy module (one Tokenizer, reused out= list, per-call modes, empty and blank texts anywhere) and evaluates the partition predicate in the interpreter"),
-    "C02-m5": (M, "MeCab provider with a generated unk.def whose left id != right id; every OOV candidate in the lattice must carry one of the configured (left, right, cost) templates"),
-    "C02-m6": (F, ""),
-    "C03-m5": (M, "sessions reusing one tokenizer and ONE result list with empty / blank / rejected inputs anywhere; every accessor (and Debug) of every morpheme after each step"),
-    "C03-m6": (M, "additional user dictionaries that share user-defined parts of speech with each other and with userPOS:allow providers; their words in the hostile texts"),
-    "C04-m5": (O, ""), "C04-m6": (O, ""),
-    "C05-m5": (M, ""), "C05-m6": (M, ""),
-    "C06-m5": (M, ""), "C06-m6": (O, ""),
-    "C07-m5": (O, "reuse sessions contain generated texts that are accepted by start_build and rejected at commit (and texts over 49149 bytes), followed by ordinary texts, on one InputBuffer and on one tokenizer + list"),
-    "C07-m6": (O, "rewrite.def generated and checked as TEXT (comment / blank lines, all separators, '#' inside and in front of keys and values, 1-4 columns, duplicate keys); reader model RewriteDefText.v with C07_rewrite_def_spec / _errors / _accepts / _normalises"),
-    "C08-m5": (F, ""), "C08-m6": (F, ""),
-    "C09-m5": (M, ""), "C09-m6": (F, ""),
-    "C10-m5": (F, ""), "C10-m6": (O, ""),
-    "C11-m5": (F, ""), "C11-m6": (O, ""),
-    "C12-m5": (M, ""), "C12-m6": (M, ""),
-    "C13-m5": (M, ""), "C13-m6": (F, ""),
-    "C14-m5": (O, ""), "C14-m6": (O, ""),
-    "C15-m5": (M, ""), "C15-m6": (M, ""),
-    "C16-m5": (F, ""), "C16-m6": (O, ""),
-    "C17-m5": (F, ""), "C17-m6": (F, ""),
-    "C18-m5": (O, "threads carry different word-info field requests; references are per-request dictionary instances no thread touches"),
-    "C18-m6": (O, "the Python pre-tokenizer adapter (Dictionary.pre_tokenizer with a handler) is called from 2..8 threads and compared with its single-threaded answers"),
-    "C19-m5": (F, ""),
-    "C19-m6": (M, "directed sessions whose FIRST call carries a per-call mode override, for every creation mode x small field requests"),
-    "C20-m5": (F, ""), "C20-m6": (M, ""),
-}
+# what the committed machinery reported the FIRST time each change was applied, and what was changed afterwards: a hand-kept
+# record (seeded/first_runs.json), never rewritten by a check
+ANNOT = {k: (v["first_run"], v["strengthened"]) for k, v in json.load(open(os.path.join(ROOT, "seeded", "first_runs.json"), encoding="utf-8")).items()}
 
 
 def title(d):
